@@ -76,6 +76,94 @@ impl SymDur {
         SymSecs(self.0)
     }
 }
+// further std API of SystemTime / Duration that a change to the transplanted sources may start to use
+// (whole seconds, as everywhere in this model)
+impl SystemTime {
+    pub fn checked_add(&self, d: ::std::time::Duration) -> Option<SystemTime> {
+        let r = self.secs().wrapping_add(SymU::konst(d.as_secs()));
+        if r.slt(self.secs()).get() {
+            None
+        } else {
+            Some(SystemTime(r))
+        }
+    }
+    pub fn checked_sub(&self, d: ::std::time::Duration) -> Option<SystemTime> {
+        if self.secs().slt(SymU::konst(d.as_secs())).get() {
+            None
+        } else {
+            Some(SystemTime(self.secs().wrapping_sub(SymU::konst(d.as_secs()))))
+        }
+    }
+}
+impl std::ops::Add<::std::time::Duration> for SystemTime {
+    type Output = SystemTime;
+    fn add(self, d: ::std::time::Duration) -> SystemTime {
+        self.checked_add(d).expect("overflow when adding duration to instant")
+    }
+}
+impl std::ops::Sub<::std::time::Duration> for SystemTime {
+    type Output = SystemTime;
+    fn sub(self, d: ::std::time::Duration) -> SystemTime {
+        self.checked_sub(d).expect("overflow when subtracting duration from instant")
+    }
+}
+impl PartialEq<::std::time::Duration> for SymDur {
+    fn eq(&self, o: &::std::time::Duration) -> bool {
+        self.0 == SymU::konst(o.as_secs())
+    }
+}
+impl PartialOrd<::std::time::Duration> for SymDur {
+    fn partial_cmp(&self, o: &::std::time::Duration) -> Option<std::cmp::Ordering> {
+        Some(self.0.cmp(&SymU::konst(o.as_secs())))
+    }
+}
+impl PartialEq for SymDur {
+    fn eq(&self, o: &SymDur) -> bool {
+        self.0 == o.0
+    }
+}
+impl PartialOrd for SymDur {
+    fn partial_cmp(&self, o: &SymDur) -> Option<std::cmp::Ordering> {
+        Some(self.0.cmp(&o.0))
+    }
+}
+impl PartialEq for SymSecs {
+    fn eq(&self, o: &SymSecs) -> bool {
+        self.0 == o.0
+    }
+}
+impl PartialOrd for SymSecs {
+    fn partial_cmp(&self, o: &SymSecs) -> Option<std::cmp::Ordering> {
+        Some(self.0.cmp(&o.0))
+    }
+}
+impl std::ops::Sub for SymSecs {
+    type Output = SymSecs;
+    fn sub(self, o: SymSecs) -> SymSecs {
+        if self.0.slt(o.0).get() {
+            panic!("attempt to subtract with overflow");
+        }
+        SymSecs(self.0.wrapping_sub(o.0))
+    }
+}
+impl std::ops::Sub<u64> for SymSecs {
+    type Output = SymSecs;
+    fn sub(self, o: u64) -> SymSecs {
+        self - SymSecs(SymU::konst(o))
+    }
+}
+impl SymSecs {
+    pub fn checked_sub(self, o: SymSecs) -> Option<SymSecs> {
+        if self.0.slt(o.0).get() {
+            None
+        } else {
+            Some(SymSecs(self.0.wrapping_sub(o.0)))
+        }
+    }
+    pub fn abs_diff(self, o: SymSecs) -> SymSecs {
+        SymSecs(SymU::select(self.0.slt(o.0), o.0.wrapping_sub(self.0), self.0.wrapping_sub(o.0)))
+    }
+}
 impl SymSecs {
     /// an injective stand-in for the 8 little-endian bytes: tag + the term's identity on this path
     pub fn to_le_bytes(&self) -> [u8; 8] {
